@@ -58,3 +58,27 @@ package hmtx
 //@     invariant numLong > 1 ==> info.Widths[numLong-1] != info.Widths[numLong-2]
 //@     invariant hhea.AdvanceWidthMax == maxW(info, len(info.Widths)) && (info.GlyphExtents != nil ==> hhea.MinRightSideBearing == minRSB(info, len(info.GlyphExtents)) && hhea.XMaxExtent == maxExt(info, len(info.GlyphExtents)))
 //@     decreases numGlyphs - i
+
+//@ assume func toAngle(rise int16, run int16) (a float64)
+//@   modifies nothing
+
+// Decode ("hhea" + "hmtx", OpenType): numberOfHMetrics at hhea offset 34; the
+// first numberOfHMetrics entries of hmtx are (advanceWidth, lsb) pairs, the
+// remaining entries are lsb only and repeat the last advance width.
+//@ func Decode(hheaData []byte, hmtxData []byte) (info *Info, err error)   props: C12 C02 C01
+//@   let nl = be16(hheaData, 34)
+//@   ensures err == nil ==> info != nil && fresh(info) && len(hheaData) >= 36 && info.Ascent == int16(be16(hheaData, 4)) && info.Descent == int16(be16(hheaData, 6)) && info.LineGap == int16(be16(hheaData, 8)) && info.CaretOffset == int16(be16(hheaData, 22))
+//@   ensures err == nil && hmtxData != nil ==> len(info.Widths) == len(info.LSB) && len(info.Widths) >= nl && len(hmtxData) == 4*min(len(info.Widths), nl) + 2*max(len(info.Widths) - nl, 0)
+//@   ensures err == nil && hmtxData != nil ==> forall i int :: 0 <= i && i < len(info.Widths) && i < nl ==> info.Widths[i] == int16(be16(hmtxData, 4*i)) && info.LSB[i] == int16(be16(hmtxData, 4*i + 2))
+//@   ensures err == nil && hmtxData != nil ==> forall i int :: nl <= i && i < len(info.Widths) ==> info.LSB[i] == int16(be16(hmtxData, 4*nl + 2*(i - nl))) && info.Widths[i] == ite(nl == 0, 0, info.Widths[nl-1])
+//@   modifies nothing
+//@   loop 0
+//@     invariant 0 <= i && len(widths) == i && len(lsbs) == i && (isnil(widths) || fresh(widths)) && (isnil(lsbs) || fresh(lsbs)) && (isnil(widths) || isnil(lsbs) || ref(widths) != ref(lsbs)) && numHorMetrics == be16(hheaData, 34) && info != nil && fresh(info)
+//@     invariant ref(hmtxData) == ref(old(hmtxData)) && off(hmtxData) == off(old(hmtxData)) + 4*min(i, numHorMetrics) + 2*max(i - numHorMetrics, 0) && len(hmtxData) == len(old(hmtxData)) - 4*min(i, numHorMetrics) - 2*max(i - numHorMetrics, 0) && old(hmtxData) != nil
+//@     invariant forall k int :: 0 <= k && k < i && k < numHorMetrics ==> widths[k] == int16(be16(old(hmtxData), 4*k))
+//@     invariant forall k int :: 0 <= k && k < i && k < numHorMetrics ==> lsbs[k] == int16(be16(old(hmtxData), 4*k + 2))
+//@     invariant forall k int :: numHorMetrics <= k && k < i ==> lsbs[k] == int16(be16(old(hmtxData), 4*numHorMetrics + 2*(k - numHorMetrics)))
+//@     invariant forall k int :: numHorMetrics <= k && k < i ==> widths[k] == ite(numHorMetrics == 0, 0, widths[numHorMetrics-1])
+//@     invariant prevWidth == ite(i == 0 || numHorMetrics == 0, 0, widths[min(i, numHorMetrics)-1])
+//@     invariant info.Ascent == int16(be16(hheaData, 4)) && info.Descent == int16(be16(hheaData, 6)) && info.LineGap == int16(be16(hheaData, 8)) && info.CaretOffset == int16(be16(hheaData, 22)) && len(hheaData) >= 36
+//@     decreases len(hmtxData)
